@@ -37,6 +37,16 @@ fn in_multi_col_descriptor(ws: &Worksheet, c: i32) -> bool {
     false
 }
 
+/// the height the row has when it is not hidden (what `row_height` shows after unhide), in pixels
+fn row_actual_height(ws: &Worksheet, r: i32) -> f64 {
+    let mut i = 0;
+    while i < ws.rows.len() {
+        if ws.rows[i].r == r { return ws.rows[i].height * crate::constants::ROW_HEIGHT_FACTOR; }
+        i += 1;
+    }
+    crate::constants::DEFAULT_ROW_HEIGHT
+}
+
 fn row_style(ws: &Worksheet, r: i32) -> Option<(i32, bool)> {
     let mut i = 0;
     while i < ws.rows.len() {
@@ -45,6 +55,14 @@ fn row_style(ws: &Worksheet, r: i32) -> Option<(i32, bool)> {
     }
     // no record: default style, exactly what a fresh record (s = 0, custom_format = false) reads as
     Some((0, false))
+}
+
+fn two_cols_fixed_w() -> (Worksheet, i32, i32) {
+    let ws = sheet_with(any_cols_fixed_w(NCOLS), vec![]);
+    let c = any_col_index();
+    let o = any_col_index();
+    assume(o != c);
+    (ws, c, o)
 }
 
 fn two_cols() -> (Worksheet, i32, i32) {
@@ -56,12 +74,14 @@ fn two_cols() -> (Worksheet, i32, i32) {
 }
 
 pub fn h_c29_col_hidden() {
-    let (mut ws, c, o) = two_cols();
+    let (mut ws, c, o) = two_cols_fixed_w();
     let hidden = any_bool();
     let before_o = (ws.is_column_hidden(o), ws.get_column_style(o), col_width_rec(&ws, o));
     let style_c = ws.get_column_style(c);
+    let width_c = ws.get_actual_column_width(c);
     let r = ws.set_column_hidden(c, hidden);
     check("C29.col_hidden.ok", r.is_ok());
+    check("C29.col_hidden.keeps_width", ws.get_actual_column_width(c) == width_c);
     check("C29.col_hidden.applied", ws.is_column_hidden(c) == Ok(hidden));
     check("C29.col_hidden.keeps_style", ws.get_column_style(c) == style_c);
     check("C29.col_hidden.frame_other", before_o == (ws.is_column_hidden(o), ws.get_column_style(o), col_width_rec(&ws, o)));
@@ -70,14 +90,15 @@ pub fn h_c29_col_hidden() {
 }
 
 pub fn h_c29_col_style() {
-    let (mut ws, c, o) = two_cols();
+    let (mut ws, c, o) = two_cols_fixed_w();
     let style = any_i32();
     let before_o = (ws.is_column_hidden(o), ws.get_column_style(o), col_width_rec(&ws, o));
     let hidden_c = ws.is_column_hidden(c);
-    let multi = in_multi_col_descriptor(&ws, c);
+    let width_c = ws.get_actual_column_width(c);
     let r = ws.set_column_style(c, style);
     check("C29.col_style.ok", r.is_ok());
-    check_kf("C29.col_style.applied", ws.get_column_style(c) == Ok(Some(style)), "KF-C29-1", multi);
+    check("C29.col_style.keeps_width", ws.get_actual_column_width(c) == width_c);
+    check("C29.col_style.applied", ws.get_column_style(c) == Ok(Some(style)));
     check("C29.col_style.keeps_hidden", ws.is_column_hidden(c) == hidden_c);
     check("C29.col_style.frame_other", before_o == (ws.is_column_hidden(o), ws.get_column_style(o), col_width_rec(&ws, o)));
     check("C27.col_style.wf", cols_well_formed(&ws.cols));
@@ -86,12 +107,12 @@ pub fn h_c29_col_style() {
 
 /// styling a *hidden* column must not destroy its width (seen again after unhide)
 pub fn h_c29_col_style_hidden_width() {
-    let (mut ws, c, _o) = two_cols();
+    let (mut ws, c, _o) = two_cols_fixed_w();
     assume(ws.is_column_hidden(c) == Ok(true));
     let before = ws.get_actual_column_width(c);
     let r = ws.set_column_style(c, any_i32());
     check("C29.col_style_hidden.ok", r.is_ok());
-    check_kf("C29.col_style_hidden.keeps_width", ws.get_actual_column_width(c) == before, "KF-C29-2", true);
+    check("C29.col_style_hidden.keeps_width", ws.get_actual_column_width(c) == before);
     reach("C29.col_style_hidden");
 }
 
@@ -99,11 +120,12 @@ pub fn h_c29_col_delete_style() {
     let (mut ws, c, o) = two_cols();
     let before_o = (ws.is_column_hidden(o), ws.get_column_style(o), col_width_rec(&ws, o));
     let hidden_c = ws.is_column_hidden(c);
-    let width_c = col_width_rec(&ws, c);
+    let width_a = ws.get_actual_column_width(c);
     let r = ws.delete_column_style(c);
     check("C29.col_delete_style.ok", r.is_ok());
     check("C29.col_delete_style.applied", ws.get_column_style(c) == Ok(None));
-    check_kf("C29.col_delete_style.keeps_hidden", ws.is_column_hidden(c) == hidden_c, "KF-C29-3", hidden_c == Ok(true));
+    check("C29.col_delete_style.keeps_width", ws.get_actual_column_width(c) == width_a);
+    check("C29.col_delete_style.keeps_hidden", ws.is_column_hidden(c) == hidden_c);
     check("C29.col_delete_style.frame_other", before_o == (ws.is_column_hidden(o), ws.get_column_style(o), col_width_rec(&ws, o)));
     check("C27.col_delete_style.wf", cols_well_formed(&ws.cols));
     reach("C29.col_delete_style");
@@ -112,7 +134,7 @@ pub fn h_c29_col_delete_style() {
 pub fn h_c29_col_width() {
     let (mut ws, c, o) = two_cols();
     let w = any_f64();
-    assume(w >= 0.0 && w <= MAX_W);
+    assume((w >= 0.0) & (w <= MAX_W));
     let before_o = (ws.is_column_hidden(o), ws.get_column_style(o), col_width_rec(&ws, o));
     let hidden_c = ws.is_column_hidden(c);
     let style_c = ws.get_column_style(c);
@@ -138,8 +160,10 @@ pub fn h_c29_row_hidden() {
     let hidden = any_bool();
     let before_o = (ws.is_row_hidden(o), row_style(&ws, o), row_rec(&ws, o));
     let style_r = row_style(&ws, r);
+    let height_r = row_actual_height(&ws, r);
     let res = ws.set_row_hidden(r, hidden);
     check("C29.row_hidden.ok", res.is_ok());
+    check("C29.row_hidden.keeps_height", row_actual_height(&ws, r) == height_r);
     check("C29.row_hidden.applied", ws.is_row_hidden(r) == Ok(hidden));
     check("C29.row_hidden.keeps_style", row_style(&ws, r) == style_r);
     check("C29.row_hidden.frame_other", before_o == (ws.is_row_hidden(o), row_style(&ws, o), row_rec(&ws, o)));
@@ -152,8 +176,11 @@ pub fn h_c29_row_style() {
     let style = any_i32();
     let before_o = (ws.is_row_hidden(o), row_style(&ws, o), row_rec(&ws, o));
     let hidden_r = ws.is_row_hidden(r);
+    let height_r = row_actual_height(&ws, r);
     let res = ws.set_row_style(r, style);
     check("C29.row_style.ok", res.is_ok());
+    check("C29.row_style.keeps_height", row_actual_height(&ws, r) == height_r);
+    check("C29.row_style.applied", row_style(&ws, r) == Some((style, style != 0)));
     check("C29.row_style.keeps_hidden", ws.is_row_hidden(r) == hidden_r);
     check("C29.row_style.frame_other", before_o == (ws.is_row_hidden(o), row_style(&ws, o), row_rec(&ws, o)));
     check("C27.row_style.wf", rows_well_formed(&ws.rows));
@@ -163,7 +190,7 @@ pub fn h_c29_row_style() {
 pub fn h_c29_row_height() {
     let (mut ws, r, o) = two_rows();
     let h = any_f64();
-    assume(h >= 0.0 && h <= MAX_W);
+    assume((h >= 0.0) & (h <= MAX_W));
     let before_o = (ws.is_row_hidden(o), row_style(&ws, o), row_rec(&ws, o));
     let hidden_r = ws.is_row_hidden(r);
     let style_r = row_style(&ws, r);
